@@ -1079,3 +1079,37 @@ package sarama
 //@   loop 1: invariant len(pSet.msgs) == old(len(pSet.msgs)) && arr(pSet.msgs) == old(arr(pSet.msgs)) && off(pSet.msgs) == old(off(pSet.msgs))
 //@   loop 1: invariant forall j :: 0 <= j && j < $i ==> pSet.msgs[j].disp == old(pSet.msgs[j].disp) + 1
 //@   loop 1: invariant forall j :: $i <= j && j < len(pSet.msgs) ==> pSet.msgs[j].disp == old(pSet.msgs[j].disp)
+
+// ---------------------------------------------------------------------------------------------
+// interceptors (C18) and the dispatcher loop (C01, C16, C18)
+
+//@ ghost field ProducerMessage.intercepted int
+
+// An interceptor may rewrite the exported fields of the message it is given, nothing else (A-iface).
+//@ func (i ProducerInterceptor) OnSend(m) trusted
+//@   effect m.intercepted == old(m.intercepted) + 1
+//@   modifies m.intercepted, m.Topic, m.Key, m.Value, m.Headers, m.Metadata, m.Offset, m.Partition, m.Timestamp
+
+//@ func (msg *ProducerMessage) safelyApplyInterceptor(interceptor) props C18
+//@   ensures[once] msg.intercepted == old(msg.intercepted) + 1
+//@   ensures[internal_state_kept] msg.retries == old(msg.retries) && msg.flags == old(msg.flags) && msg.disp == old(msg.disp)
+//@   modifies msg.intercepted, msg.Topic, msg.Key, msg.Value, msg.Headers, msg.Metadata, msg.Offset, msg.Partition, msg.Timestamp
+
+//@ func (p *asyncProducer) dispatcher() props C01 C16 C18
+//@   callsite safelyApplyInterceptor: requires[fresh_only @C18] msg.retries == 0 && msg.flags == 0
+//@   callsite Done: modifies msg.disp
+//@   callsite Done: effect msg.disp == old(msg.disp) + 1
+//@   callsite send.handler: modifies msg.disp
+//@   callsite send.handler: effect msg.disp == old(msg.disp) + 1
+//@   callsite send.handler: requires[size_checked @C16] bsz(msg, ite(verAtLeast(p.conf.Version, V0_11_0_0), 2, 1)) <= p.conf.Producer.MaxMessageBytes
+//@   loop 0: iter_ensures[one_outcome @C01] msg != nil && !(it(shuttingDown) && it(msg.retries) == 0 && it(msg.flags)&shutdown == 0) ==> msg.disp == it(msg.disp) + 1
+//@   loop 0: iter_ensures[rejected_at_shutdown @C01] msg != nil && it(shuttingDown) && it(msg.retries) == 0 && it(msg.flags)&shutdown == 0 ==> msg.disp == it(msg.disp) && wgcount(p.inFlight) == it(wgcount(p.inFlight)) && msg.errEvents == it(msg.errEvents) + ite(p.conf.Producer.Return.Errors, 1, 0)
+//@   loop 0: iter_ensures[intercepted_once @C18] msg != nil && it(msg.retries) == 0 && it(msg.flags) == 0 && !it(shuttingDown) ==> msg.intercepted == it(msg.intercepted) + len(p.conf.Producer.Interceptors)
+//@   loop 0: iter_ensures[not_intercepted_again @C18] msg != nil && (it(msg.retries) != 0 || it(msg.flags) != 0) ==> msg.intercepted == it(msg.intercepted)
+//@   loop 1: invariant msg.intercepted == it(msg.intercepted) + $i && msg.retries == it(msg.retries) && msg.flags == it(msg.flags) && msg.disp == it(msg.disp) && wgcount(p.inFlight) == it(wgcount(p.inFlight)) + ite(it(msg.retries) == 0, 1, 0) && msg.errEvents == it(msg.errEvents)
+
+// spawns the topic worker; touches no message, produce set or configuration (A-own)
+//@ func (p *asyncProducer) newTopicProducer(topic) trusted
+//@   returns ch
+//@   ensures ch != nil
+//@   modifies nothing
